@@ -698,12 +698,15 @@ pub fn dec_poll_styled<F: Family>(
     let fault_shape = fill_style >> 4;
     // bit 3: `fault` is a one-shot transient failure at that position instead of a persistent error
     let one_shot = fill_style & 8 != 0;
+    // (fault = Some((usize::MAX, kind)) names the kind with which reads *after* the reported end of the stream fail)
     let fill_style = fill_style & 1;
     let mut reader = ScriptedReader::new(data, steps);
     reader.fill_style = fill_style;
     reader.eof_as_error = eof_as_error;
     reader.fault_shape = fault_shape;
-    if one_shot {
+    if matches!(fault, Some((usize::MAX, _))) {
+        reader.after_eof = fault.map(|f| f.1);
+    } else if one_shot {
         reader.fail_once_at = fault;
     } else {
         reader.fault = fault;
